@@ -47,7 +47,7 @@ def mc_module(name, extends, defs, extra=""):
 
 
 def cfg(defs, plain=None, invariants=(), properties=(), view=None, init="Init", next_="Next",
-        constraint=None, deadlock=False, postcondition=None):
+        constraint=None, deadlock=False, postcondition=None, specification=None):
     lines = ["CONSTANTS"]
     for k in defs:
         lines.append(" %s <- c_%s" % (k, k))
@@ -55,8 +55,11 @@ def cfg(defs, plain=None, invariants=(), properties=(), view=None, init="Init", 
         lines.pop()
     for k, v in (plain or {}).items():
         lines.append(" %s = %s" % (k, tla(v) if not isinstance(v, int) or isinstance(v, bool) else str(v)))
-    lines.append("INIT " + init)
-    lines.append("NEXT " + next_)
+    if specification:
+        lines.append("SPECIFICATION " + specification)
+    else:
+        lines.append("INIT " + init)
+        lines.append("NEXT " + next_)
     if view:
         lines.append("VIEW " + view)
     for i in invariants:
